@@ -121,8 +121,9 @@ class Pi:
             out["bins"] = {str(int(i)): P(v) for i, v in h.bins.items()}
             out["nan"] = P(h.nanflow)
         elif k == "CentrallyBin":
-            out["centers"] = [P.pos(c) for c, v in h.bins]
-            out["bins"] = [P(v) for c, v in h.bins]
+            bins = h.bins if h.bins is not None else []  # `bins is None` is observable: it projects to no bins
+            out["centers"] = [P.pos(c) for c, v in bins]
+            out["bins"] = [P(v) for c, v in bins]
             out["nan"] = P(h.nanflow)
         elif k in ("IrregularlyBin", "Stack"):
             out["ths"] = [P.pos(c) for c, v in h.bins]
